@@ -1,12 +1,140 @@
 /-
-  Props.C01 — the theorems that decide property C01 (see DESIGN.md §7).
+  Props.C01 — core expression evaluation conforms to the JMESPath
+  specification (DESIGN.md §7, C01).  `Spec.den` is the specification's
+  total meaning of the core fragment; `toNode` is the AST the parser builds for
+  it; the theorem says `Execute` computes `den`, never failing, on every
+  document.
 -/
 import Props.Tables
+import Spec.Semantics
+import Jmes.Interp
 namespace Jmes.Props
-open Jmes
+open Jmes Jmes.Interp Jmes.Spec
 
 theorem C01_generated_table_ok : TableOK Generated.table = true := generated_table_ok
 theorem C01_generated_sigs_ok : SigsOK Generated.functionTable Spec.functionTable = true := generated_sigs_ok
 theorem C01_generated_lex_ok : LexTablesOK Model.lexTables Spec.lexTables = true := generated_lex_ok
+
+variable {N : Type} [NumOps N]
+
+mutual
+/-- The AST of a core expression. -/
+def toNode : Core N → Node N
+  | .field k => .field k
+  | .index i => .index i
+  | .sub a b => .sub (toNode a) (toNode b)
+  | .idx a i => .indexExpr (toNode a) (.index i)
+  | .literal v => .literal v
+  | .current => .current
+  | .pipe a b => .pipe (toNode a) (toNode b)
+  | .list xs => .msList (toNodes xs)
+  | .hash kvs => .msHash (toNodeKVs kvs)
+def toNodes : List (Core N) → List (Node N)
+  | [] => []
+  | x :: xs => toNode x :: toNodes xs
+def toNodeKVs : List (Bytes × Core N) → List (Bytes × Node N)
+  | [] => []
+  | (k, x) :: xs => (k, toNode x) :: toNodeKVs xs
+end
+
+omit [NumOps N] in
+/-- The interpreter's index arithmetic is the specification's. -/
+theorem indexArr_eq_elemAt (xs : List (Val N)) (i : Int) : indexArr xs i = elemAt xs i := by
+  unfold indexArr elemAt
+  by_cases h0 : 0 ≤ i
+  · have : ¬ i < 0 := by omega
+    simp only [this, if_false, h0, if_true]
+    by_cases hl : i < xs.length
+    · simp [hl, h0]
+    · have : xs.length ≤ i.toNat := by omega
+      simp [hl, List.getD_eq_getElem?_getD, List.getElem?_eq_none this]
+  · have hn : i < 0 := by omega
+    simp only [hn, if_true, h0, if_false]
+    by_cases hl : -(xs.length : Int) ≤ i
+    · have h1 : i + xs.length < xs.length := by omega
+      have h2 : i + (xs.length : Int) ≥ 0 := by omega
+      simp [hl, h1, h2]
+    · have : ¬ (i + (xs.length : Int) ≥ 0) := by omega
+      simp [hl, this]
+
+mutual
+/-- Conformance: on every document, the core fragment evaluates — without
+    error — to the value the specification assigns. -/
+theorem C01_core_conformance (ft : List FnEntry) : ∀ (c : Core N) (d : Val N), eval ft (toNode c) d = .ok (den c d)
+  | .field k, d => by cases d <;> simp [toNode, eval, den, fieldOf]
+  | .index i, d => by cases d <;> simp [toNode, eval, den, indexOf, indexArr_eq_elemAt]
+  | .sub a b, d => by
+    simp only [toNode, eval, C01_core_conformance ft a d, den]
+    exact C01_core_conformance ft b _
+  | .idx a i, d => by
+    simp only [toNode, eval, C01_core_conformance ft a d, den]
+    cases den a d <;> simp [eval, indexOf, indexArr_eq_elemAt]
+  | .literal v, d => by simp [toNode, eval, den]
+  | .current, d => by simp [toNode, eval, den]
+  | .pipe a b, d => by
+    simp only [toNode, eval, C01_core_conformance ft a d, den]
+    exact C01_core_conformance ft b _
+  | .list xs, d => by
+    cases d <;> simp [toNode, eval, den, C01_list ft xs]
+  | .hash kvs, d => by
+    cases d <;> simp [toNode, eval, den, C01_hash ft kvs]
+theorem C01_list (ft : List FnEntry) : ∀ (xs : List (Core N)) (d : Val N), evalList ft (toNodes xs) d = .ok (denList xs d)
+  | [], _ => rfl
+  | x :: xs, d => by simp [toNodes, evalList, denList, C01_core_conformance ft x d, C01_list ft xs d]
+theorem C01_hash (ft : List FnEntry) : ∀ (kvs : List (Bytes × Core N)) (d : Val N),
+    evalKVs ft (toNodeKVs kvs) d = .ok (denKVs kvs d)
+  | [], _ => rfl
+  | (k, x) :: xs, d => by simp [toNodeKVs, evalKVs, denKVs, C01_core_conformance ft x d, C01_hash ft xs d]
+end
+
+/-! The cases the property names, as consequences of the specification's
+    definitions (so they are facts about `den`, carried to `Execute` by the
+    theorem above). -/
+
+omit [NumOps N] in
+theorem C01_missing_key_is_null (k : Bytes) (kvs : List (Bytes × Val N)) (h : Val.lookup k kvs = none) :
+    den (.field k) (.obj kvs) = (.null : Val N) := by simp [den, fieldOf, h]
+
+omit [NumOps N] in
+theorem C01_field_of_non_object_is_null (k : Bytes) (d : Val N) (h : ∀ kvs, d ≠ .obj kvs) :
+    den (.field k) d = .null := by
+  cases d <;> simp [den, fieldOf]
+  exact absurd rfl (h _)
+
+omit [NumOps N] in
+theorem C01_out_of_range_index_is_null (xs : List (Val N)) (i : Int) (h : (xs.length : Int) ≤ i ∨ i < -(xs.length : Int)) :
+    den (.index i) (.arr xs) = .null := by
+  simp only [den, indexOf, elemAt]
+  rcases h with h | h
+  · have h0 : 0 ≤ i := by omega
+    have : xs.length ≤ i.toNat := by omega
+    simp [h0, List.getD_eq_getElem?_getD, List.getElem?_eq_none this]
+  · have h0 : ¬ 0 ≤ i := by omega
+    have h1 : ¬ -(xs.length : Int) ≤ i := by omega
+    simp [h0, h1]
+
+omit [NumOps N] in
+theorem C01_negative_index_counts_from_end (xs : List (Val N)) (k : Nat) (hk : 0 < k) (hl : k ≤ xs.length) :
+    den (.index (-(k : Int))) (.arr xs) = xs.getD (xs.length - k) .null := by
+  simp only [den, indexOf, elemAt]
+  have h0 : ¬ (0 : Int) ≤ -(k : Int) := by omega
+  have h1 : -(xs.length : Int) ≤ -(k : Int) := by omega
+  have : (-(k : Int) + xs.length).toNat = xs.length - k := by omega
+  simp [h1, this]
+  intro hk0; omega
+
+omit [NumOps N] in
+theorem C01_multiselect_on_null_is_null (xs : List (Core N)) (kvs : List (Bytes × Core N)) :
+    den (.list xs) (.null : Val N) = .null ∧ den (.hash kvs) (.null : Val N) = .null := by
+  simp [den]
+
+/-- Non-vacuity: a negative index on a multi-select result, a field access on
+    a string, a pipe after a null, the empty quoted key. -/
+example : den (N := Int) (.idx (.list [.field [0x61], .literal (.num 7)]) (-1)) (.obj [([0x61], .num 1)]) = .num 7 := by
+  simp [den, denList, indexOf, elemAt, fieldOf, Val.lookup]
+example : den (N := Int) (.sub (.field [0x73]) (.field [])) (.obj [([0x73], .str [0x78])]) = .null := by
+  simp [den, fieldOf, Val.lookup]
+example : den (N := Int) (.pipe (.field [0x6D]) (.literal (.num 1))) (.obj []) = .num 1 := by
+  simp [den]
 
 end Jmes.Props
